@@ -438,7 +438,166 @@ def _bucket(prop, tier, seed, idx):
     return b
 
 
+C12_STRUCTS = [
+ {"kind":"named","name":"Normal","dim":2,"lo":1e-2,"hi":1e2},
+ {"kind":"named","name":"StudentT","dim":1,"lo":1e-2,"hi":1e2},
+ {"kind":"named","name":"VmapMixture","dim":2,"lo":1e-2,"hi":1e2},
+ {"kind":"named","name":"MultivariateNormal","dim":2,"lo":1e-2,"hi":1e2},
+ {"kind":"named","name":"LogNormal","dim":2,"lo":1e-2,"hi":1e2},
+ {"kind":"named","name":"Uniform","dim":2,"lo":1e-2,"hi":1e2},
+ {"kind":"affine","dim":2,"base":"studentt"},
+ {"kind":"triaffine","dim":2,"lower":True},
+ {"kind":"vspline","dim":2,"knots":2,"interval":[-4.0,4.0],"invert":False},
+ {"kind":"planar","dim":2,"cond_dim":2,"negative_slope":0.1,"invert":True,"width":2,"depth":1},
+ {"kind":"chain","dim":2,"items":[["Affine"],["Tanh"],["Affine"]]},
+ {"kind":"chain","dim":2,"items":[["TriAffine"],["Flip"],["Affine"]],"base":"normal"},
+ {"kind":"nested_chain","dim":2,"first":[["Affine"]],"inner":[["TriAffine"],["Affine"]],"last":[["Affine"]]},
+ {"kind":"container","dim":2,"variant":"concat"},
+ {"kind":"container","dim":2,"variant":"stack"},
+ {"kind":"container","dim":2,"variant":"partial"},
+ {"kind":"container","dim":2,"variant":"embed","cond_dim":3},
+ {"kind":"container","dim":2,"variant":"additive","cond_dim":2},
+ {"kind":"scan_vspline","dim":2,"knots":2,"interval":[-1.0,1.0],"layers":2,"invert":True},
+ {"kind":"flow","flow":"maf","dim":2,"cond_dim":None,"layers":2,"invert":True,"transformer":"affine","width":3,"depth":1},
+ {"kind":"flow","flow":"maf","dim":2,"cond_dim":2,"layers":1,"invert":True,"transformer":"spline","knots":2,"interval":[-4.0,4.0],"width":3,"depth":1},
+ {"kind":"flow","flow":"maf","dim":2,"cond_dim":None,"layers":1,"invert":False,"transformer":"affine_frozen_scale_node","width":3,"depth":0},
+ {"kind":"flow","flow":"coupling","dim":3,"cond_dim":None,"layers":2,"invert":True,"transformer":"affine","width":3,"depth":1},
+ {"kind":"flow","flow":"coupling","dim":2,"cond_dim":2,"layers":1,"invert":False,"transformer":"spline_frozen_derivs","width":3,"depth":1},
+ {"kind":"flow","flow":"planar","dim":2,"cond_dim":None,"layers":2,"invert":True,"negative_slope":0.1,"width":2,"depth":0},
+ {"kind":"bnaf","dim":2,"cond_dim":None,"mode":"single","layers":1,"invert":True,"depth":1,"block_dim":2,"activation":None},
+ {"kind":"bnaf","dim":2,"cond_dim":2,"mode":"scan","layers":2,"invert":True,"depth":1,"block_dim":1,"activation":"leaky1"},
+ {"kind":"bnaf","dim":2,"cond_dim":None,"mode":"chain","layers":2,"invert":False,"depth":0,"block_dim":1,"activation":None},
+ {"kind":"tri_spline","dim":2,"cond_dim":None,"mode":"single","layers":1,"invert":True,"knots":2,"tanh_max_val":3.0},
+ {"kind":"tri_spline","dim":2,"cond_dim":2,"mode":"scan","layers":2,"invert":False,"knots":2,"tanh_max_val":3.0},
+]
+# number of freezable tree positions (engine_b.candidate_nodes) of each structure above, measured on the pinned tree; a
+# changed count only means a few positions are visited twice (the plan index wraps) or not at all
+C12_NODE_COUNTS = [4, 7, 8, 7, 6, 4, 12, 7, 11, 10, 10, 18, 23, 9, 12, 5, 11, 9, 22, 15, 15, 10, 13, 12, 6, 30, 35, 40, 24, 27]
+_C12_GRID = []
+
+
+def c12_freeze_grid():
+    """C12 thorough, enumerated block: EVERY freezable tree position of 30 representative structures (every family of
+    the zoo), frozen once as NonTrainable(subtree) and once with non_trainable(subtree): (structure, position, mode)."""
+    if not _C12_GRID:
+        for si, n in enumerate(C12_NODE_COUNTS):
+            for j in range(n):
+                for mode in ("NT", "fn"):
+                    _C12_GRID.append((si, j, mode))
+    return _C12_GRID
+
+
+def _c12_enumerated_world(seed, idx):
+    si, j, mode = c12_freeze_grid()[idx]
+    base = copy.deepcopy(C12_STRUCTS[si])
+    r = rng_for(seed, "C12", "thorough", "enum", idx)
+    rs = rng_for(seed, "C12", "thorough", "enum-struct", si)
+    loop, loss = _loop_for(base, rs)
+    w = {"engine": "B", "prop": "C12", "model": _fill_values(base, r), "freeze": [{"node": j, "mode": mode}], "freeze_keep_some": False,
+         "loop": loop, "loss": loss, "opt": "adamw", "lr": 1e-2, "idx": idx, "enumerated": [si, j, mode]}
+    if loop == "vi":
+        w["steps"] = 3
+    else:
+        w.update({"data": {"n": 16, "seed": r.randrange(2**31)}, "batch_size": 4, "val_prop": 0.5 if loss == "contrastive" else 0.25, "max_epochs": 1, "max_patience": 5})
+    w.update({"key_seed": r.randrange(2**31), "return_best": r.random() < 0.5, "show_progress": False, "key_style": "legacy", "max_states": 3})
+    w["faults"] = [{"step": r.choice([1, 2]), "kind": "opt_teleport", "seed": r.randrange(2**30), "scale": float(r.choice([0.5, 3.0]))}]
+    return w
+
+
+_C09_GRID = []
+
+
+def c09_grid():
+    """The configuration grid of C09's quantifier, one bucket per configuration (thorough tier, enumerated block):
+    masked autoregressive (dim 1-4 x cond 0-2 x width 1-5 x depth 0-2 x parameters-per-dimension 1, 2, 3k-1),
+    coupling (dim 2-4 x cond 0/2 x width 1/3/5 x depth 0-2 x 2 transformers) and block autoregressive networks
+    (dim 1-4 x cond 0/2 x depth 0-2 x block size 1-3). One layer each: the structure clauses are per layer."""
+    if _C09_GRID:
+        return _C09_GRID
+    k = 0
+    for dim in (1, 2, 3, 4):
+        for cond in (None, 1, 2):
+            for width in (1, 2, 3, 4, 5):
+                for depth in (0, 1, 2):
+                    for tr in ("affine", "loc", "spline"):
+                        m = {"kind": "flow", "flow": "maf", "dim": dim, "cond_dim": cond, "layers": 1, "invert": bool(k % 2), "transformer": tr,
+                             "width": width, "depth": depth}
+                        if tr == "spline":
+                            m.update({"knots": 2, "interval": [-4.0, 4.0], "min_derivative": 1e-3, "softmax_adjust": 1e-2})
+                        _C09_GRID.append(m)
+                        k += 1
+    for dim in (2, 3, 4):
+        for cond in (None, 2):
+            for width in (1, 3, 5):
+                for depth in (0, 1, 2):
+                    for tr in ("affine", "spline"):
+                        m = {"kind": "flow", "flow": "coupling", "dim": dim, "cond_dim": cond, "layers": 1, "invert": bool(k % 2), "transformer": tr,
+                             "width": width, "depth": depth}
+                        if tr == "spline":
+                            m.update({"knots": 2, "interval": [-4.0, 4.0], "min_derivative": 1e-3, "softmax_adjust": 1e-2})
+                        _C09_GRID.append(m)
+                        k += 1
+    for dim in (1, 2, 3, 4):
+        for cond in (None, 2):
+            for depth in (0, 1, 2):
+                for block in (1, 2, 3):
+                    _C09_GRID.append({"kind": "bnaf", "dim": dim, "cond_dim": cond, "mode": "single", "layers": 1, "invert": True, "depth": depth,
+                                      "block_dim": block, "activation": None})
+    return _C09_GRID
+
+
+def _c09_enumerated_world(seed, idx):
+    """World idx of the enumerated block: configuration idx // K, K seeded runs each. Every run schedules an
+    all-positive teleport (so the dependency-completeness clauses are evaluated in every configuration)."""
+    K = K_BUCKET["C09"]
+    spec = copy.deepcopy(c09_grid()[idx // K])
+    r = rng_for(seed, "C09", "thorough", "enum", idx)
+    rb = rng_for(seed, "C09", "thorough", "enum-bucket", idx // K)
+    loop, loss = _loop_for(spec, rb)
+    w = {"engine": "B", "prop": "C09", "model": _fill_values(spec, r), "freeze": [], "loop": loop, "loss": loss,
+         "opt": rb.choice(["sgd", "adam", "adamw"]), "lr": rb.choice([1e-3, 1e-2]), "idx": idx, "enumerated": idx // K}
+    n = 12
+    w.update({"data": {"n": n, "seed": r.randrange(2**31)}, "batch_size": 4, "val_prop": 0.25})
+    if loss == "contrastive":
+        w.update({"data": {"n": 16, "seed": r.randrange(2**31)}, "batch_size": 4, "val_prop": 0.5})
+    w.update({"key_seed": r.randrange(2**31), "return_best": r.random() < 0.5, "show_progress": False, "key_style": "legacy",
+              "max_epochs": 2, "max_patience": 5, "max_states": 6})
+    if loop == "vi":
+        for k_ in ("data", "batch_size", "val_prop", "max_epochs", "max_patience"):
+            w.pop(k_)
+        w["steps"] = 4
+    box = _box(spec, "C09")
+    steps = [0, 1, 2, 3]
+    r.shuffle(steps)
+    w["faults"] = [{"step": steps[0], "kind": "opt_teleport_positive", "seed": r.randrange(2**30)},
+                   {"step": steps[1], "kind": "opt_teleport", "seed": r.randrange(2**30), "scale": float(r.choice([0.5, 3.0, box]))}]
+    if r.random() < 0.5:
+        w["faults"].append({"step": steps[2], "kind": r.choice(["opt_teleport", "grad_huge", "opt_signflip"]), "seed": r.randrange(2**30), "scale": float(box)})
+    w["prelude"] = []
+    return w
+
+
 def world_for(prop, tier, seed, idx):
+    if prop == "C09" and tier == "thorough":
+        n_enum = len(c09_grid()) * K_BUCKET["C09"]
+        if idx < n_enum:
+            return _c09_enumerated_world(seed, idx)
+        w = _world_for_seeded(prop, tier, seed, idx - n_enum)
+        w["idx"] = idx
+        return w
+    if prop == "C12" and tier == "thorough":
+        n_enum = -(-len(c12_freeze_grid()) // K_BUCKET["C12"]) * K_BUCKET["C12"]  # whole buckets
+        if idx < len(c12_freeze_grid()):
+            return _c12_enumerated_world(seed, idx)
+        if idx < n_enum:
+            return _c12_enumerated_world(seed, idx % len(c12_freeze_grid()))
+        w = _world_for_seeded(prop, tier, seed, idx - n_enum)
+        w["idx"] = idx
+        return w
+    return _world_for_seeded(prop, tier, seed, idx)
+
+
+def _world_for_seeded(prop, tier, seed, idx):
     b = _bucket(prop, tier, seed, idx)
     wn, _, ridx = _route(prop, idx)
     r = rng_for(seed, prop, tier, "wnrun" if wn else "run", ridx)
